@@ -289,3 +289,25 @@ package dns
 //@   at call dyn:callback#1 assert a0 == f && a1 == types && a2 == overrideOutbound && len(types) == len(paramValueGroup)
 //@   loop 1
 //@     invariant len(types) == $idx
+
+// C07 (names in rule targets): the reserved targets map to their own index - reject, asis, the AND connective
+// to AND and the OR connective to OR - and any other name to the index the upstream table gives it (an unknown
+// name is an error).
+//@ func (*RequestMatcherBuilder).upstreamToId
+//@   requires b != nil
+//@   dyncalls noeffect
+//@   ensures upstream == "reject" ==> err == nil && upstreamId == consts.DnsRequestOutboundIndex_Reject
+//@   ensures upstream == "asis" ==> err == nil && upstreamId == consts.DnsRequestOutboundIndex_AsIs
+//@   ensures upstream == "<AND>" ==> err == nil && upstreamId == consts.DnsRequestOutboundIndex_LogicalAnd
+//@   ensures upstream == "<OR>" ==> err == nil && upstreamId == consts.DnsRequestOutboundIndex_LogicalOr
+//@   ensures upstream != "reject" && upstream != "asis" && upstream != "<AND>" && upstream != "<OR>" && err == nil ==> has(b.upstreamName2Id, upstream) && upstreamId == b.upstreamName2Id[upstream]
+//@   ensures upstream != "reject" && upstream != "asis" && upstream != "<AND>" && upstream != "<OR>" && !has(b.upstreamName2Id, upstream) ==> err != nil
+//@ func (*ResponseMatcherBuilder).upstreamToId
+//@   requires b != nil
+//@   dyncalls noeffect
+//@   ensures upstream == "accept" ==> err == nil && upstreamId == consts.DnsResponseOutboundIndex_Accept
+//@   ensures upstream == "reject" ==> err == nil && upstreamId == consts.DnsResponseOutboundIndex_Reject
+//@   ensures upstream == "<AND>" ==> err == nil && upstreamId == consts.DnsResponseOutboundIndex_LogicalAnd
+//@   ensures upstream == "<OR>" ==> err == nil && upstreamId == consts.DnsResponseOutboundIndex_LogicalOr
+//@   ensures upstream != "accept" && upstream != "reject" && upstream != "<AND>" && upstream != "<OR>" && err == nil ==> has(b.upstreamName2Id, upstream) && upstreamId == b.upstreamName2Id[upstream]
+//@   ensures upstream != "accept" && upstream != "reject" && upstream != "<AND>" && upstream != "<OR>" && !has(b.upstreamName2Id, upstream) ==> err != nil
